@@ -299,6 +299,54 @@ let handle (line : string) : string =
       Printf.sprintf "ok %s acc=%s" (dump_block (BCuesheet c)) acc
     | Err e -> "err:" ^ err_name e
     | Panic k -> "panic:" ^ panic_name k)
+  | [ "c20"; p; total; text; style; ast ] -> (
+    let n_of_dec s = n_of_hex (Printf.sprintf "%x" (int_of_string s)) in
+    let ascii s = List.init (String.length s) (fun i -> n_of_int (Char.code s.[i])) in
+    let st =
+      match split ',' style with
+      | [ f; ty ] ->
+        let b i = f.[i] = '1' in
+        { st_pad_track = b 0; st_pad_index = b 1; st_pad_time = b 2; st_quote_catalog = b 3; st_quote_isrc = b 4;
+          st_dash_isrc = b 5; st_flags_first = b 6; st_type = unhx ty }
+      | _ -> failwith "style"
+    in
+    let c =
+      match split ';' ast with
+      | cat :: ts ->
+        { cu_catalog = (if cat = "-" then None else Some (ascii cat));
+          cu_tracks =
+            List.map
+              (fun t ->
+                match split ',' t with
+                | [ num; pre; isrc; ixs ] ->
+                  { ct_num = n_of_dec num; ct_pre = pre = "1"; ct_isrc = (if isrc = "-" then None else Some (ascii isrc));
+                    ct_indices =
+                      List.map
+                        (fun i ->
+                          match split ':' i with
+                          | [ a; b; c; d ] -> { ci_num = n_of_dec a; ci_mm = n_of_dec b; ci_ss = n_of_dec c; ci_ff = n_of_dec d }
+                          | _ -> failwith "index")
+                        (split '+' ixs) }
+                | _ -> failwith "track")
+              ts }
+      | [] -> failwith "ast"
+    in
+    let tot = n_of_hex total in
+    let txt = decode_utf8 (string_of_hex text) in
+    let m = if cue_text_matches st c txt then "ok" else "bad" in
+    match cue_parse (profile_of p) tot txt with
+    | Ok got ->
+      let acc = try cue_acc got (n_of_int 2) (n_of_int 16) with Acc_panic -> "panic" in
+      let blockof = match block_of c tot with Some b when b = got -> "ok" | _ -> "bad" in
+      let layout x = List.map (fun t -> (t.tr_off, t.tr_num, index_list t.tr_ix)) (cue_tracks x) in
+      let rt =
+        match cue_parse (profile_of p) tot (display got (List.map n_of_int [ 102; 46; 102; 108; 97; 99 ])) with
+        | Ok again when layout again = layout got && track_sample_ranges again = track_sample_ranges got -> "ok"
+        | _ -> "bad"
+      in
+      Printf.sprintf "ok %s acc=%s match=%s blockof=%s rt=%s" (dump_block (BCuesheet got)) acc m blockof rt
+    | Err e -> Printf.sprintf "err:%s match=%s blockof=bad rt=bad" (err_name e) m
+    | Panic k -> Printf.sprintf "panic:%s match=%s blockof=bad rt=bad" (panic_name k) m)
   | [ "img"; p; h ] -> (
     match sniff (profile_of p) (unhx h) with
     | Ok m ->
